@@ -1,6 +1,7 @@
 """C07 — every module the compiler accepts yields a header that compiles (structural clauses)."""
 from checks.common import Ctx
 from sa.report import Check
+from sa.rules import bounds_rules as BRX
 from sa.rules import backend as B
 from sa.rules import window_rules as WN
 from sa.rules import cpp_rules as C
@@ -53,4 +54,5 @@ def main(tier):
     chk.run("R-RESUBREPL", B.resubrepl, cx.repo, floor=3)
     chk.run("R-ELEMSTORAGE", B.elemstorage, cx.repo, cx.cpp, floor=2)
     chk.run("R-ENUMUNIQUE", B.enumunique, cx.repo, floor=2)
+    chk.run("R-CONSTAGREE", BRX.constagree, cx.repo, floor=3)
     return chk.finish()
